@@ -415,20 +415,56 @@ func Run(p Plan) (v hk.Verdict) {
 
 			sort.Strings(liveIDs)
 
+			// ... and into an object that has itself written the storage (a slot added and deleted again leaves the
+			// same slots and the same tag behind)
+			var written *keystorage.KeyStorage
+
+			if len(liveIDs) > 0 && op.Arg%2 == 0 {
+				w := &keystorage.KeyStorage{}
+				auth := liveIDs[op.Arg/2%len(liveIDs)]
+
+				if err := w.UnmarshalBinary(b); err == nil {
+					if err := w.AddKeySlot("zz-tmp", keys[0].pub, auth, keys[slots[auth]].priv); err == nil {
+						if err := w.DeleteKeySlot("zz-tmp", keys[0].priv); err == nil {
+							if wb, err := w.MarshalBinary(); err == nil && bytes.Equal(wb, b) {
+								written = w
+							} else if err == nil {
+								var wst, st0 key_storage.Storage
+								if wst.UnmarshalVT(wb) == nil && st0.UnmarshalVT(b) == nil && wst.EqualVT(&st0) {
+									written = w
+								}
+							}
+						}
+					}
+				}
+			}
+
 			rejectedAtLoad := false
 
 			// (protobuf unmarshalling into a used object merges: an alteration that only removes something - the tag,
 			// a slot - leaves the genuine storage behind there, which is not tampered with)
 			onlyRemoves := op.Corr == 2 || op.Corr == 8 || len(st.KeysHmacHash) == 0
 
-			for _, tampered := range []*keystorage.KeyStorage{{}, reused} {
+			for _, tampered := range []*keystorage.KeyStorage{{}, reused, written} {
 				how := "loaded into a fresh storage"
-				if tampered == reused {
+
+				switch {
+				case tampered == nil:
+					continue
+				case tampered == reused:
 					if onlyRemoves {
 						continue
 					}
 
 					how = "re-loaded into a storage that had verified the genuine form before"
+				case tampered == written:
+					if onlyRemoves {
+						continue
+					}
+
+					how = "re-loaded into a storage that had added and deleted a slot of the genuine form before"
+
+					v.Label("tamper-reloaded-into-writer")
 				}
 
 				if err := tampered.UnmarshalBinary(cb); err != nil {
